@@ -108,11 +108,34 @@ LIST_TARGETS = ('jl0', 'jl1', 'jl2', 'jl1b', 'ia', 'sa', 'fa')
 DICT_TARGETS = ('jd0', 'jd1', 'jd2', 'jd1b')
 
 
+def pick(x, lo, hi):
+    """turn a bounded symbolic int into a concrete one through explicit comparisons (each one a recorded fork). Handing the
+    symbolic int to list C code instead makes CrossHair realise it inside `__index__`, which re-explored the same concrete
+    arguments several times (measured: 60-80 paths instead of 32, and the slice harness did not finish)."""
+    if x is None: return None
+    for c in range(lo, hi + 1):
+        if x == c: return c
+    raise AssertionError('out of range')
+
+
 class Args(object):
-    __slots__ = ('i', 'lo', 'hi', 'st', 'k', 'n', 'v', 'shape', 'seq', 'kind')
+    """the symbolic arguments of one operation; a bounded argument is made concrete (pick) the first time the operation
+    reads it, so an operation only forks on the arguments it uses.  `v` (the inserted integer) stays symbolic."""
+    RANGES = {'i': lambda: (IDX_LO, IDX_HI), 'lo': lambda: (SL_LO, SL_HI), 'hi': lambda: (SL_LO, SL_HI), 'st': lambda: (0, NSTEP - 1),
+              'k': lambda: (0, 2), 'n': lambda: (N_LO, N_HI), 'shape': lambda: (0, 6), 'seq': lambda: (0, 5)}
 
     def __init__(self, i=0, lo=None, hi=None, st=0, k=0, n=0, v=0, shape=0, seq=0, kind='json'):
-        self.i, self.lo, self.hi, self.st, self.k, self.n, self.v, self.shape, self.seq, self.kind = i, lo, hi, st, k, n, v, shape, seq, kind
+        self.raw = {'i': i, 'lo': lo, 'hi': hi, 'st': st, 'k': k, 'n': n, 'shape': shape, 'seq': seq}
+        self.done = {}
+        self.v = v
+        self.kind = kind
+
+    def __getattr__(self, name):
+        if name in ('raw', 'done') or name not in self.raw: raise AttributeError(name)
+        if name not in self.done:
+            lo, hi = self.RANGES[name]()
+            self.done[name] = pick(self.raw[name], lo, hi)
+        return self.done[name]
 
 
 class Idx(object):
@@ -434,42 +457,46 @@ def read(target, table, op, A):
 # ---- harness bodies ---------------------------------------------------------------------------------------------------
 
 def _l_ops(t, op, i, n, v, shape, seq):
-    m, w = mutate(t, LIST_OPS, op, Args(i=i, n=n, v=v, shape=shape, seq=seq))
+    op = pick(op, 0, len(LIST_OPS) - 1)
+    A = Args(i=i, n=n, v=v, shape=shape, seq=seq)
+    m, w = mutate(t, LIST_OPS, op, A)
     # W for tuple/iterator arguments is asserted separately (l_wn_*), W for the in-place operator statements in l_alias_*
-    return m and (w or seq in NONLIST or LIST_OPS[op][0] == 'stmt_iadd')
+    return m and (w or LIST_OPS[op][0] == 'stmt_iadd' or A.seq in NONLIST)
 
 
 def _l_slice(t, op, lo, hi, st, v, shape, seq):
-    m, w = mutate(t, LIST_SLICE_OPS, op, Args(lo=lo, hi=hi, st=st, v=v, shape=shape, seq=seq))
-    return m and (w or seq in NONLIST)
+    A = Args(lo=lo, hi=hi, st=st, v=v, shape=shape, seq=seq)
+    m, w = mutate(t, LIST_SLICE_OPS, pick(op, 0, 1), A)
+    return m and (w or A.seq in NONLIST)
 
 
 def _l_alias(t, op, n, v, shape, seq):
-    m, w = mutate(t, LIST_ALIAS_OPS, op, Args(n=n, v=v, shape=shape, seq=seq))
+    m, w = mutate(t, LIST_ALIAS_OPS, pick(op, 0, len(LIST_ALIAS_OPS) - 1), Args(n=n, v=v, shape=shape, seq=seq))
     return m and w
 
 
 def _l_wn(t, op, lo, hi, v, shape, sq):
-    m, w = mutate(t, LIST_ITER_OPS, op, Args(lo=lo, hi=hi, v=v, shape=shape, seq=NONLIST[sq]))
+    m, w = mutate(t, LIST_ITER_OPS, pick(op, 0, len(LIST_ITER_OPS) - 1), Args(lo=lo, hi=hi, v=v, shape=shape, seq=NONLIST[pick(sq, 0, NNONLIST - 1)]))
     return w
 
 
 def _l_read(t, op, i, lo, hi, st, n, v, shape):
-    return read(t, LIST_READS, op, Args(i=i, lo=lo, hi=hi, st=st, n=n, v=v, shape=shape))
+    return read(t, LIST_READS, pick(op, 0, len(LIST_READS) - 1), Args(i=i, lo=lo, hi=hi, st=st, n=n, v=v, shape=shape))
 
 
 def _d_ops(t, op, k, v, shape, seq):
+    op = pick(op, 0, len(DICT_OPS) - 1)
     m, w = mutate(t, DICT_OPS, op, Args(k=k, v=v, shape=shape, seq=seq))
     return m and (w or DICT_OPS[op][0] == 'stmt_ior')      # W for `|=` statements is asserted in d_alias_*
 
 
 def _d_alias(t, op, k, v, shape, seq):
-    m, w = mutate(t, DICT_ALIAS_OPS, op, Args(k=k, v=v, shape=shape, seq=seq))
+    m, w = mutate(t, DICT_ALIAS_OPS, pick(op, 0, len(DICT_ALIAS_OPS) - 1), Args(k=k, v=v, shape=shape, seq=seq))
     return m and w
 
 
 def _d_read(t, op, k, v, shape):
-    return read(t, DICT_READS, op, Args(k=k, v=v, shape=shape))
+    return read(t, DICT_READS, pick(op, 0, len(DICT_READS) - 1), Args(k=k, v=v, shape=shape))
 
 
 # ---- harnesses (one per target container and operation family; generated text, see the bottom of checks/c28.py) --------
@@ -1012,9 +1039,8 @@ if os.environ.get('C28_DEBUG'):
         from crosshair.core import realize
         from crosshair.tracers import NoTracing
         try:
-            vals = [realize(x) for x in (A.i, A.lo, A.hi, A.st, A.k, A.n, A.shape, A.seq, A.v)]
             with NoTracing():
-                _LOG.append((t, table[op][0]) + tuple(repr(x) for x in vals))
+                _LOG.append((t, table[op][0], repr(sorted(A.done.items()))))
         except Exception as e:
             _LOG.append((t, 'ERR', repr(e)))
     def mutate(t, table, op, A):
@@ -1034,3 +1060,4 @@ if os.environ.get('C28_DEBUG'):
                 print('PATHS', _N[0], collections.Counter(x[:2] for x in _LOG).most_common(), file=f)
                 print('  DUP', [kv for kv in collections.Counter(_LOG).most_common(5)], file=f)
     atexit.register(_dump)
+
